@@ -45,6 +45,12 @@ func runC09(c *an.Ctx) {
 	r045as(c, "R09.7") // a forwarding loop drops an event only by configuration: with or without backpressure the last event is the final value
 	c.Min("R09.7", 2)
 	r098(c)
+	// the merge stage of a slow reader works on its own copies: the event object the bus hands to every subscriber is
+	// never written (E2; otherwise what a diligent subscriber holds changes under it)
+	runE2(c, "R09.9", func(fn *ssa.Function) bool {
+		return fn.Package() != nil && strings.HasSuffix(fn.Package().Pkg.Path(), "/pkg/resource")
+	})
+	c.Min("R09.9", 10)
 	c.Min("R09.5", 5)
 	c.Min("R09.1", 32)
 	c.Min("R09.2", 8)
